@@ -24,12 +24,10 @@ Definition is_empty (c : compound) : bool := match c with [] => true | _ => fals
 Definition is_alone (c : compound) (s : state) : bool := (length c =? 1)%nat && (spower s =? 1).
 
 (* Compound::base_units: the derived units met (with their powers) and the accumulated base powers *)
-Definition base_units (c : compound) : list (unit * Z) * powers :=
-  fold_left (fun acc us =>
-               let '(der, pw) := acc in
-               let u := fst us in let p := spower (snd us) in
-               if is_base u then (der, pinsert pw u p) else (der ++ [(u, p)], add_closure pw u p))
-            c ([], []).
+Definition bu_step (acc : list (unit * Z) * powers) (us : unit * state) : list (unit * Z) * powers :=
+  let u := fst us in let p := spower (snd us) in
+  if is_base u then (fst acc, pinsert (snd acc) u p) else (fst acc ++ [(u, p)], add_closure (snd acc) u p).
+Definition base_units (c : compound) : list (unit * Z) * powers := fold_left bu_step c ([], []).
 
 Definition run_mops (ops : list mop) (v : Q) : Q :=
   fold_left (fun v op => match op with
